@@ -230,10 +230,31 @@ package forkexec
 //@   ensures W.kill_pid == pid && W.kill_count == old(W.kill_count) + 1 && W.reaped[pid]
 //@   loop 0: invariant W.kill_pid == pid && W.kill_count == old(W.kill_count) + 1 && ((err == nil || err != iface(syscall.Errno(4))) ==> W.reaped[pid])
 
-//@ func pkg/forkexec.writeIDMaps
-//@   trusted "writes /proc/<pid>/{uid_map,setgroups,gid_map}; its errors are errno values of open/write/close"
-//@   pure
+// id maps of a new user namespace (model U in /verif/spec/userns_U.contracts): uid_map first, then
+// setgroups ("deny" unless gid mappings are given with setgroups enabled), then gid_map - for the child's
+// pid; every error is an errno value (syncWithChild type-asserts it).
+//@ func pkg/forkexec.writeFile props C04
+//@   arith int
+//@   assigns FD.closed, U.n, U.path, U.data
 //@   ensures result != nil ==> hastype(result, syscall.Errno)
+//@   ensures forall d int :: old(FD.closed[d]) ==> FD.closed[d]
+//@   abstracts result == nil ==> U.n == old(U.n) + 1 && U.path == old(U.path)[old(U.n) := path] && U.data == old(U.data)[old(U.n) := content]
+//@   abstracts result != nil ==> U.n == old(U.n) && U.path == old(U.path) && U.data == old(U.data)
+
+//@ func pkg/forkexec.formatIDMappings props C04
+//@   arith int
+//@   assigns nothing
+//@   loop 0: invariant -1 <= rangeindex && rangeindex < len(idMap)
+
+//@ func pkg/forkexec.writeIDMaps props C04
+//@   arith int
+//@   requires r != nil
+//@   assigns FD.closed, U.n, U.path, U.data
+//@   ensures result != nil ==> hastype(result, syscall.Errno)
+//@   ensures forall d int :: old(FD.closed[d]) ==> FD.closed[d]
+//@   ensures result == nil ==> U.n == old(U.n) + 3 && U.path[old(U.n)] == "/proc/" + itoa(pid) + "/uid_map" && U.path[old(U.n) + 1] == "/proc/" + itoa(pid) + "/setgroups" && U.path[old(U.n) + 2] == "/proc/" + itoa(pid) + "/gid_map"
+//@   ensures result == nil && !(r.GIDMappings != nil && r.GIDMappingsEnableSetgroups) ==> U.data[old(U.n) + 1] == setGIDDeny
+//@   ensures result == nil && r.GIDMappings != nil && r.GIDMappingsEnableSetgroups ==> U.data[old(U.n) + 1] == setGIDAllow
 
 // After the clone: the callback runs only after a well-formed ready word from the child and before the
 // ack is written; on any failure the child is killed and reaped and both socket ends are closed
@@ -241,7 +262,7 @@ package forkexec
 //@ func pkg/forkexec.syncWithChild props C07 C10 C12
 //@   arith int
 //@   requires r != nil && p[0] != p[1] && (err1 == 0 ==> 0 <= pid && pid < 2147483648)
-//@   assigns P.st, S.cb_calls, W.kill_pid, W.kill_count, W.reaped, FD.closed, FD.handed, K.last_trap, K.last_errno, K.sync_stage, K.sync_wfile
+//@   assigns U._all, P.st, S.cb_calls, W.kill_pid, W.kill_count, W.reaped, FD.closed, FD.handed, K.last_trap, K.last_errno, K.sync_stage, K.sync_wfile
 //@   ensures @C12 FD.closed[p[1]] && (FD.closed[p[0]] || FD.handed[p[0]])
 //@   ensures @C07 @C12 result.1 != nil && err1 == 0 ==> W.kill_pid == pid && W.reaped[pid] && W.kill_count == old(W.kill_count) + 1
 //@   ensures @C07 result.1 != nil ==> result.0 == 0
@@ -266,7 +287,7 @@ package forkexec
 //@   requires r.ExecFile < 2147483648 && len(r.Files) < 1048576
 //@   requires forall j int, k int :: 0 <= j && j < k && k < len(r.Mounts) ==> r.Mounts[j].Target != r.Mounts[k].Target
 //@   requires forall k int :: 0 <= k && k < len(r.Mounts) ==> r.Mounts[k].Target != nil && r.Mounts[k].Flags & 32 == 0 && r.Mounts[k].Target != elemaddr(slash, 0)
-//@   assigns P.st, S.cb_calls, W.kill_pid, W.kill_count, W.reaped, FD.closed, FD.handed, K.fdt, K.clo, K.pid, K.secbits, K.caps_empty, K.nnp, K.filter, K.filter_flags, K.uid, K.uid_set, K.gid, K.gid_set, K.groups_set, K.ngroups, K.groups_ptr, K.sid_new, K.ctty, K.cwd, K.host, K.hostlen, K.host_issued, K.domain, K.domainlen, K.domain_issued, K.clone_flags, K.clone3, K.clone_cgroup, K.mnt_src, K.mnt_type, K.mnt_flags, K.mnt_data, K.mnt_done, K.remount, K.remount_done, K.nmount, K.pivoted, K.pivot_new, K.pivot_old, K.old_detached, K.old_removed, K.rl_cur, K.rl_max, K.rl_set, K.traceme, K.stopped_self, K.sync_stage, K.sync_wfile, K.sync_rfile, K.idmap_read, K.unshare_cgroup_issued, K.last_trap, K.last_errno, K.reported, K.reported_loc, K.reported_err, K.reported_idx, K.exec_attempts
+//@   assigns U._all, P.st, S.cb_calls, W.kill_pid, W.kill_count, W.reaped, FD.closed, FD.handed, K.fdt, K.clo, K.pid, K.secbits, K.caps_empty, K.nnp, K.filter, K.filter_flags, K.uid, K.uid_set, K.gid, K.gid_set, K.groups_set, K.ngroups, K.groups_ptr, K.sid_new, K.ctty, K.cwd, K.host, K.hostlen, K.host_issued, K.domain, K.domainlen, K.domain_issued, K.clone_flags, K.clone3, K.clone_cgroup, K.mnt_src, K.mnt_type, K.mnt_flags, K.mnt_data, K.mnt_done, K.remount, K.remount_done, K.nmount, K.pivoted, K.pivot_new, K.pivot_old, K.old_detached, K.old_removed, K.rl_cur, K.rl_max, K.rl_set, K.traceme, K.stopped_self, K.sync_stage, K.sync_wfile, K.sync_rfile, K.idmap_read, K.unshare_cgroup_issued, K.last_trap, K.last_errno, K.reported, K.reported_loc, K.reported_err, K.reported_idx, K.exec_attempts
 //@   ensures @C10 r.SyncFunc == nil ==> S.cb_calls == old(S.cb_calls)
 //@   ensures @C10 @C07 result.1 == nil && r.SyncFunc != nil ==> S.cb_calls == old(S.cb_calls) + 1
 //@   invokes r.SyncFunc when S.cb_calls == old(S.cb_calls) + 1
